@@ -102,6 +102,12 @@ func Fetch(
 			return nil
 		}
 
+		// A record without content (i.e. a created, but never written file) was never piped through
+		// the encryption and compression; there is nothing to decode, the file is empty
+		if hdr.Size == 0 {
+			return dstFile.Close()
+		}
+
 		decryptor, err := encryption.Decrypt(tr, pipes.Encryption, crypto.Identity)
 		if err != nil {
 			return err
